@@ -41,6 +41,18 @@ Fixpoint dec_hist (fuel : nat) (l : list Z) : option (list hop) :=
   | _, _ => None
   end.
 
+(* mode 3: sizes observed by readers polling during ONE bulk call that takes the map from `before` to `after` entries
+   (-1 ends a reader): atomicity of the call = every observation is one of the two sizes and, per reader, never goes back *)
+Fixpoint bulk_ok (before after : Z) (seen_after : bool) (l : list Z) : bool :=
+  match l with
+  | [] => true
+  | x :: t =>
+      if x =? -1 then bulk_ok before after false t
+      else if x =? after then bulk_ok before after true t
+      else if x =? before then negb seen_after && bulk_ok before after seen_after t
+      else false
+  end.
+
 Definition entry (sub : Z) (args : list Z) : list Z :=
   match args with
   | 0 :: cap :: ops =>
@@ -54,6 +66,7 @@ Definition entry (sub : Z) (args : list Z) : list Z :=
       | None => [BADCASE]
       end
   | [2; a; b; iters] => [0]
+  | 3 :: before :: after :: obs => [zb (bulk_ok before after false obs)]
   | _ => [BADCASE]
   end.
 
